@@ -1251,6 +1251,13 @@ def c05_streams(ctx):
         for s in r.sample(CAP_INPUTS, ctx.scale(6, 30)):
             cs = [Case(p, "", "compile", ""), Case(p, "", "analyze", s), Case(p, "", "replace", s, "[$1|$2|$3]"), Case(p, "", "tokenize", s), Case(p, "", "is_match", s)]
             gs.append(Group(cs, {"features": {"capture_in_rep", "capture_in_alt", "capture"}, "input": s, "kind": "quantified-groups"}))
+    # the one-edit neighbourhood of valid patterns (truncations after '{n,', unbalanced brackets, swapped bounds …) and
+    # sequences made only of no-op pieces inside groups / branches
+    for p in props2.EDIT_SEEDS + ["(a{0}b{0,0})c", "x|^*$?", "((?:)(?:))a", "(a{0}(b{0}))c", "(?:x|a{0}^*)y", "(a{0}b{0})*c", "(^*)($?)a"]:
+        variants = [p] + props2.edit_neighbourhood(r, p, ctx.scale(25, 250))
+        for q in variants:
+            cs = [Case(q, "", "compile", ""), Case(q, "", "is_match", "c"), Case(q, "", "replace", "ac", "$1"), Case(q, "", "tokenize", "ac"), Case(q, "", "analyze", "ac")]
+            gs.append(Group(cs, {"features": set(), "input": "ac", "kind": "edit-neighbourhood"}))
     # regression corpus (past failures run on every check) + back-references to groups that are re-entered in a loop
     corpus = [("(?:(a)\\1*a){2}", "aaab"), ("(?:.b?)*?(a)??\\1c", "abc"), ("(?:a{9223372036854775808})?", "a"), ("^(?:a|b)[cd]{2}", "ac"), ("a(b?)c", "ac"), ("(", "(")]
     for p, s in corpus:
@@ -1344,7 +1351,7 @@ def shortcut_pattern(ctx, f=""):
     elif k < 0.45:
         p = "^" + p                                           # start anchor
     elif k < 0.7:
-        x = r.choice(["a", "b", "[ab]", "\\w", ".", "\\n", "\\s", "\\d", "x", "z", "é", "[x-z]"])
+        x = r.choice(["a", "b", "[ab]", "\\w", ".", "\\n", "\\s", "\\d", "x", "z", "é", "[x-z]", "\\p{Ll}", "\\p{Lu}", "[\\p{Ll}1]"])
         q = r.choice(["*", "+", "?", "{2}", "{1,3}", "*?", "+?", "{0,2}?"])
         y = r.choice(["a", "b", "[ab]", "c", "\\n", "$", "^", "\\w", "(?:a|b)", "b*", "(b)", "1", ".", "[^0-9]", "\\S", "x", "[^a]", "A", "B", "Ab", "[A-B]", "$\\nb", "^a"])
         if r.random() < 0.3:
@@ -1352,6 +1359,8 @@ def shortcut_pattern(ctx, f=""):
             y = r.choice(["(?:b|)X", "(?:(?:bc|d)*|c)X", "(?:c?|d)X", "(b*|c)X", "(?:b|c*)X", "(?:^|c)X", "(?:c|$)X", "(c)?X", "(?:c{0,2}|d)X"]).replace("X", x)
         if "i" in f and x.isalpha() and r.random() < 0.4:
             y = x.upper() + r.choice(["", "b", "$"])          # the same letter in the other case
+        if "i" in f and "{L" in x:
+            y = r.choice(["A", "a", "B", "b"]) + r.choice(["", "$"])   # a literal whose case counterpart is in the (case-sensitive) class
         if "m" in f and r.random() < 0.3:
             x, y = r.choice(["\\n", "[^,]", "\\s"]), r.choice(["$\\nb", "$", "^a", "\\n"])
         anch = r.random() < 0.12
